@@ -786,7 +786,11 @@ class BuildWorld(HistoryWorld):
                     q.append({'op': 'load', 's': len(st.slices), 't': 'ref'})
                 q.append(dict(base, t='slice', s=len(st.slices)))
             else:
-                if rng.random() < 0.06:
+                if rng.random() < 0.25:
+                    # a prefixed snake string into a root with less than a byte free: prefix and text go to the continuation
+                    ln = rng.choice([0, 1, 5, 126, 127, 300])
+                    q.append(dict(base, t='snake_string', v=_rtext(rng, ln), prefix=True))
+                elif rng.random() < 0.06:
                     k = rng.choice([989, 990, 1000, 1023, 1023, 1024, 1025])
                     q.append(dict(base, t='snake_bytes', vgen=[rng.getrandbits(32), rem // 8 + 127 * k - rng.choice([0, 1, 126])]))
                 else:
